@@ -597,7 +597,14 @@ def tiling(facts, cls, res, formulas):
                     ilo, ihi, _d = fm.loop_interval(inner[0])
                     iv = [v for v in kids(kids(inner[0])[0]) if v.get("k") == "VarDecl"][0]
                     asg = [y for y in walk(kids(inner[0])[-1]) if y.get("k") == "BinaryOperator" and y.get("op") == "=" and "positionsOfChildren" in facts.ntext(kids(y)[0])]
-                    allpos = str(ilo) == "0" and "getNbChildrenPerCell" in facts.ntext(kids(inner[0])[1]) and len(asg) == 1 and strip(kids(asg[0])[1]).get("did") == iv["did"]
+                    bt = facts.ntext(kids(inner[0])[1])
+                    nchild = "getNbChildrenPerCell" in bt
+                    if not nchild:
+                        # a class constant equal to 2^Dim
+                        for st_ in (facts.cls(cls) or {}).get("statics", []):
+                            if re.search(r"\b%s\b" % re.escape(st_["name"]), bt) and st_.get("c") and re.fullmatch(r"\(?\(?1L?\)?<<\(?Dim\)?\)?", facts.ntext(st_["c"][0]).replace(" ", "")):
+                                nchild = True
+                    allpos = str(ilo) == "0" and nchild and len(asg) == 1 and strip(kids(asg[0])[1]).get("did") == iv["did"]
     okm = base_level == Hs - 2 and base_out == base_level and rec_level == Ls and rec_out == Ls and src == Ls + 1 and allpos and str(hi_) == "H - 3" and d_ == "down"
     res.instance(R, "%s::M2M" % cls, facts.loc(m2m), "real root -> level %s; level L in [%s, %s] = all 2^Dim child positions filled with level %s: %s" % (base_level, lo_, hi_, src, "self-similar" if okm else "NOT recognised as self-similar"))
     if not okm:
